@@ -24,7 +24,7 @@ CLAIMS = {
  "C15": ("TLC enumerates FROST sessions (thresholds, arrival orders with duplicates and surplus signers, corruption sites) from FrostGen.tla, checking the coordinator's selection contract on the model; sampled sessions are replayed into the five ciphersuites and TLC recomputes every decision and value from the RFC 9591 specification in Frost.tla (VSS consistency, commitments, signature shares, share verification, aggregation, group / RFC 8032 verification, strict wire decoders).", "TLC-generated behaviours replayed into the code + TLC trace validation against a TLA+ transcription of RFC 9591"),
  "C16": ("TLC model-checks the key-counter design (LmsGen.tla: no leaf reuse, strictly increasing indices, state advanced before a signature is visible, termination) over every interleaving of sign / RNG-failure / exhausted-sign for a small tree, enumerates the histories for the real height with an RNG failure injected at every call position, and validates the replayed traces (leaf index of every signature, state after every call, verification accepts exactly the issued pairs; selected signatures recomputed with RFC 8554 in TLC); the inductive invariant of the counter is discharged by Apalache for any number of leaves, calls and failures (apalache/LmsInd).", "TLC model checking of the key state machine + Apalache inductive invariant + TLC-generated histories replayed into the code + TLC trace validation"),
  "C18": ("The field, group, hash and signature programs are re-executed under each non-default build configuration that compiles on this host and validated by TLC against the same TLA+ specification, so that every specified output equals one value whatever the backend.", TV),
- "C17": ("TLC enumerates every allowed call history (depth 3, 2 instances, symbolic length classes) of the HashGen.tla API model; the histories are replayed into the real hash types and TLC recomputes every digest / SHAKE chunk from the abstract message with SHA2.tla / Keccak.tla / Blake2s.tla (TraceHash.tla). The SHA-2 length field is driven to 2^29..2^61 bytes through the guarded hook verif_skip_blocks (HashApi.Skip).", "TLC-generated behaviours replayed into the code + TLC trace validation against TLA+ hash specifications"),
+ "C17": ("TLC enumerates every allowed call history (depth 3, 2 instances, symbolic length classes) of the HashGen.tla API model; the histories are replayed into the real hash types and TLC recomputes every digest / SHAKE chunk from the abstract message with SHA2.tla / Keccak.tla / Blake2s.tla (TraceHash.tla). The SHA-2 length field and the BLAKE2s block counter are driven to 2^29..2^63 bytes through the guarded hooks verif_skip_blocks (HashApi.Skip, ShaPadX, Blake2sX).", "TLC-generated behaviours replayed into the code + TLC trace validation against TLA+ hash specifications"),
  "C20": ("TLC validates set_cond/select/cswap/equals/iszero events between registers in different representations against the Select semantics in TraceField.tla, every representation k*q of zero with every single bit flipped (also in the internal Montgomery representation), other representatives of the same quotient-group element, and the constant-time table lookups incl. out-of-range indices.", TV),
 }
 NA_C02 = ("Constant-time behaviour is a property of branch targets and addresses in optimised machine code as a function of "
